@@ -1,4 +1,8 @@
 import KtVerif.Spec.Kmer
 import KtVerif.Spec.Minimiser
+import KtVerif.Spec.Vectors
 import KtVerif.Model.Kmer
 import KtVerif.Model.Minimiser
+import KtVerif.Model.Float
+import KtVerif.Model.Vectors
+import KtVerif.Driver
